@@ -30,7 +30,7 @@ RULE = ("batdata generator (1-5 groups with 1-3 batteries behind 1-4 shared inve
         "probe inside and one outside the advertised bounds")
 REQUIRED_BUCKETS = ["probe-inside-accepted", "probe-outside-rejected", "shared-inverters(n bat:1 inv)",
                     "shared-batteries(1 bat:n inv)", "nonzero-exclusion", "adjust_power=True", "adjust_power=False",
-                    "probe-on-bound"]
+                    "probe-on-bound", "irregular-group(batteries with different inverter sets)"]
 REQUIRED_COUNTERS = ["probes_checked", "inclusion_bounds_compared", "min_power_sums_checked"]
 ASSUMPTIONS = ["fake API / graph; all components healthy"]
 
@@ -47,8 +47,33 @@ def gen(rng: Any, tier: str, i: int) -> Any:
         ng = rng.choice([1, 2, 2, 3, 4, 5])
         groups = [batdata.gen_group(rng, mode) for _ in range(ng)]
         if all(batdata.component_ok(c) for g in groups for c in g["bats"] + g["invs"]):
-            return {"groups": groups, "pseed": rng.randrange(1 << 30)}
+            irregular = (rng.random() < 0.3 and 2 <= len(groups[0]["bats"]) <= 3 and len(groups[0]["invs"]) >= 2)
+            return {"groups": groups, "pseed": rng.randrange(1 << 30), "irregular": irregular}
     return None
+
+
+_IRR_BATS = [216, 209, 202]  # ids whose set iteration order (hash slots 0, 1, 2) is the reverse of their numeric order
+
+
+def _bid(case: dict[str, Any], g: int, j: int) -> int:
+    return _IRR_BATS[j] if case.get("irregular") and g == 0 else batdata.bat_id(g, j)
+
+
+def _iid(case: dict[str, Any], g: int, j: int) -> int:
+    return batdata.inv_id(g, j)
+
+
+def _topology(case: dict[str, Any]) -> tuple[list[Any], list[Any]]:
+    groups = [([_bid(case, g, j) for j in range(len(grp["bats"]))],
+               [_iid(case, g, j) for j in range(len(grp["invs"]))]) for g, grp in enumerate(case["groups"])]
+    comps, conns = fakes.battery_topology(groups)
+    if case.get("irregular"):
+        # group 0 is not a complete bipartite graph: only its first battery is connected to every inverter, the
+        # others hang on the first inverter alone (they still form one group, through that shared inverter)
+        bats, invs = groups[0]
+        drop = {(i, b) for b in bats[1:] for i in invs[1:]}
+        conns = [c for c in conns if (c.start, c.end) not in drop]
+    return comps, conns
 
 
 def _advertised(case: dict[str, Any]) -> Any:
@@ -62,13 +87,13 @@ def _advertised(case: dict[str, Any]) -> Any:
     bats = set()
     for g, grp in enumerate(case["groups"]):
         for j, b in enumerate(grp["bats"]):
-            cid = batdata.bat_id(g, j)
+            cid = _bid(case, g, j)
             bats.add(cid)
             metrics[cid] = ComponentMetricsData(cid, batdata.TS, {
                 M.POWER_INCLUSION_LOWER_BOUND: b["il"], M.POWER_EXCLUSION_LOWER_BOUND: b["el"],
                 M.POWER_EXCLUSION_UPPER_BOUND: b["eu"], M.POWER_INCLUSION_UPPER_BOUND: b["iu"]})
         for j, i in enumerate(grp["invs"]):
-            cid = batdata.inv_id(g, j)
+            cid = _iid(case, g, j)
             metrics[cid] = ComponentMetricsData(cid, batdata.TS, {
                 M.ACTIVE_POWER_INCLUSION_LOWER_BOUND: i["il"], M.ACTIVE_POWER_EXCLUSION_LOWER_BOUND: i["el"],
                 M.ACTIVE_POWER_EXCLUSION_UPPER_BOUND: i["eu"], M.ACTIVE_POWER_INCLUSION_UPPER_BOUND: i["iu"]})
@@ -84,9 +109,9 @@ async def _drive(case: dict[str, Any], probes: list[float], out: dict[str, Any])
         BatteryManager
     from frequenz.sdk.microgrid._power_distributing.request import Request
 
-    groups = [([batdata.bat_id(g, j) for j in range(len(grp["bats"]))],
-               [batdata.inv_id(g, j) for j in range(len(grp["invs"]))]) for g, grp in enumerate(case["groups"])]
-    comps, conns = fakes.battery_topology(groups)
+    groups = [([_bid(case, g, j) for j in range(len(grp["bats"]))],
+               [_iid(case, g, j) for j in range(len(grp["invs"]))]) for g, grp in enumerate(case["groups"])]
+    comps, conns = _topology(case)
     api = fakes.install_connection_manager(comps, conns)
     out["sb"] = _advertised(case)
     status_ch, res_ch = Broadcast(name="status"), Broadcast(name="results")
@@ -96,9 +121,9 @@ async def _drive(case: dict[str, Any], probes: list[float], out: dict[str, Any])
     now = datetime.now(timezone.utc)
     for g, grp in enumerate(case["groups"]):
         for j, b in enumerate(grp["bats"]):
-            await api.feed(batdata.bat_id(g, j), batdata.mk_battery(batdata.bat_id(g, j), b, now))
+            await api.feed(_bid(case, g, j), batdata.mk_battery(_bid(case, g, j), b, now))
         for j, i in enumerate(grp["invs"]):
-            await api.feed(batdata.inv_id(g, j), batdata.mk_inverter(batdata.inv_id(g, j), i, now))
+            await api.feed(_iid(case, g, j), batdata.mk_inverter(_iid(case, g, j), i, now))
     await asyncio.sleep(0.5)
     all_bats = {b for bats, _ in groups for b in bats}
     for p in probes:
@@ -108,7 +133,8 @@ async def _drive(case: dict[str, Any], probes: list[float], out: dict[str, Any])
             await mgr.distribute_power(req)
             res = res_rx.consume() if res_rx._q else None  # noqa: SLF001
             out["results"].append((p, adj, res))
-            out["hook"].append(distmon.excl_hook_mismatch(case, distmon._stage.get("multi_in"), p > 0))  # noqa: SLF001
+            out["hook"].append([] if case.get("irregular") else
+                               distmon.excl_hook_mismatch(case, distmon._stage.get("multi_in"), p > 0))  # noqa: SLF001
     await mgr.stop()
 
 
@@ -120,11 +146,11 @@ def check(case: dict[str, Any], rec: Any) -> None:
     from frequenz.sdk.microgrid._power_distributing.result import Error, OutOfBounds
 
     # advertised bounds are needed to choose the probes: compute them once up-front (needs the graph)
-    groups = [([batdata.bat_id(g, j) for j in range(len(grp["bats"]))],
-               [batdata.inv_id(g, j) for j in range(len(grp["invs"]))]) for g, grp in enumerate(case["groups"])]
-    comps, conns = fakes.battery_topology(groups)
+    comps, conns = _topology(case)
     fakes.install_connection_manager(comps, conns)
     sb = _advertised(case)
+    if case.get("irregular"):
+        rec.bucket("irregular-group(batteries with different inverter sets)")
     if sb.inclusion_bounds is None or sb.exclusion_bounds is None:
         rec.violation("no-bounds-advertised-for-complete-data", {"sb": repr(sb)})
         return
@@ -147,7 +173,9 @@ def check(case: dict[str, Any], rec: Any) -> None:
     ms = [batdata.group_model(g) for g in case["groups"]]
     min_up, min_dn = sum(m["min_up"] for m in ms), sum(m["min_dn"] for m in ms)
     rec.count("min_power_sums_checked")
-    if eu < min_up - 1e-9 or -el < min_dn - 1e-9:
+    if case.get("irregular"):
+        pass  # (the harness model of a group's minimum power assumes every inverter serves every battery)
+    elif eu < min_up - 1e-9 or -el < min_dn - 1e-9:
         rec.violation("advertised-exclusion-below-sum-of-group-min-powers",
                       {"advertised_exclusion": [el, eu], "sum_min_power_consume": min_up, "sum_min_power_supply": min_dn})
 
